@@ -104,7 +104,7 @@ func (ssm *serverStreamMedia) writePacketRTCP(pkt rtcp.Packet) error {
 
 	maxPlainPacketSize := ssm.st.Server.MaxPacketSize
 	if ssm.srtpOutCtx != nil {
-		maxPlainPacketSize -= srtcpOverhead
+		maxPlainPacketSize -= srtcpOverhead + len(ssm.srtpOutCtx.mki)
 	}
 
 	if len(plain) > maxPlainPacketSize {
